@@ -10,11 +10,21 @@
                  | ( "mount" ( ( <prefix> tree ) ... ) )        Subpaths
                  | ( "hosts" ( ( <pattern number> tree ) ... ) ) Hosts; the last argument of the case is the table of
                                                                 re.fullmatch answers, one row per text (C09)
+                 | ( "static" ( <0 Files | 1 Pages> <directory> <cacheability> <max_age> ) )   Files / Pages on the world of the case
          -> <wsgi answer> <asgi answer>     each ( status headers body ) | ( "nostart" ) | ( "exc" name ) | ( "stuck" )
-          | ( "cfg" )                       a Route of the tree cannot be constructed *)
+                                                 | ( "http" status ) | ( "crash" )
+          | ( "cfg" )                       a Route of the tree cannot be constructed
+   app   ... the same eight items ... <query> <scheme> ( <server name> <port> ) <world>
+           the long form, for trees with static leaves; headers are printed in the order they are sent (not sorted)
+           world := ( <cwd>
+                      ( ( <path> <0 file | 1 dir | 2 other | 3 error> <id> ) ... )       os.stat; a path not listed is absent
+                      ( ( <id> <content> <mtime_ns> <ctime_ns> <etag hex> <int(st_mtime)> <int(st_ctime)> <Last-Modified text> ) ... )
+                      ( ( <path> <content type> ( <content-disposition> )|() ) ... )    guess_type / generate_common_headers
+                      ( ( <If-Modified-Since text> ( <second> )|() ) ... )               parsedate_to_datetime
+                      <boundary> ) *)
 From Coq Require Import List NArith ZArith Bool.
 From Baize Require Import Lib.Wire Lib.Order C02.Model C02.IO Resp.Model Resp.IO C04.Model C04.Apps.
-From Baize Require C08.IO.
+From Baize Require C07.Model C08.IO C14.IO.
 Import ListNotations.
 
 Definition rd_request (c : list sx) : option request :=
@@ -78,14 +88,107 @@ Definition rd_view (items : list sx) : option (seen -> recipe) :=
   | _ => None
   end.
 
+(* ---------- the world of the static leaves ---------- *)
+
+Fixpoint lookup_path {A : Type} (t : list (bytes * A)) (p : bytes) : option A :=
+  match t with
+  | [] => None
+  | (p', v) :: r => if bytes_eqb p' p then Some v else lookup_path r p
+  end.
+
+Fixpoint lookup_n {A : Type} (t : list (N * A)) (k : N) : option A :=
+  match t with
+  | [] => None
+  | (k', v) :: r => if N.eqb k' k then Some v else lookup_n r k
+  end.
+
+Definition rd_node (x : sx) : bytes * C07.Model.node :=
+  match x with
+  | Lst [Str p; Num k; Num id] =>
+      (p, if Z.eqb k 0 then C07.Model.NFile (Z.to_N id)
+          else if Z.eqb k 1 then C07.Model.NDir
+          else if Z.eqb k 2 then C07.Model.NOther
+          else C07.Model.NError)
+  | _ => ([], C07.Model.NAbsent)
+  end.
+
+(* id -> (content, mtime, ctime, etag, int(st_mtime), int(st_ctime), Last-Modified) *)
+Record frow := { fw_id : N; fw_meta : fmeta; fw_etag : bytes; fw_msec : N; fw_csec : N; fw_lastmod : bytes }.
+
+Definition rd_frow (x : sx) : option frow :=
+  match x with
+  | Lst [Num id; Str content; Num mt; Num ct; Str etag; Num ms; Num cs; Str lm] =>
+      Some {| fw_id := Z.to_N id;
+              fw_meta := {| fm_content := content; fm_mtime := Z.to_N mt; fm_ctime := Z.to_N ct |};
+              fw_etag := etag; fw_msec := Z.to_N ms; fw_csec := Z.to_N cs; fw_lastmod := lm |}
+  | _ => None
+  end.
+
+Definition rd_ctype_row (x : sx) : bytes * (bytes * option bytes) :=
+  match x with
+  | Lst [Str p; Str ct; Lst [Str d]] => (p, (ct, Some d))
+  | Lst [Str p; Str ct; _] => (p, (ct, None))
+  | _ => ([], ([], None))
+  end.
+
+Definition rd_date_row (x : sx) : bytes * option Z :=
+  match x with
+  | Lst [Str t; Lst [Num s]] => (t, Some s)
+  | Lst [Str t; _] => (t, None)
+  | _ => ([], None)
+  end.
+
+Definition opt_list {A : Type} (l : list (option A)) : list A :=
+  flat_map (fun o => match o with Some a => [a] | None => [] end) l.
+
+Definition rd_world (x : sx) : senv :=
+  match x with
+  | Lst [Str cwd; Lst nodes; Lst files; Lst ctypes; Lst dates; Str boundary] =>
+      let nt := map rd_node nodes in
+      let ft := opt_list (map rd_frow files) in
+      let ct := map rd_ctype_row ctypes in
+      let dt := map rd_date_row dates in
+      {| se_cwd := cwd;
+         se_fs := fun p => match lookup_path nt p with Some n => n | None => C07.Model.NAbsent end;
+         se_meta := fun id => match lookup_n (map (fun r => (fw_id r, fw_meta r)) ft) id with
+                              | Some m => m
+                              | None => {| fm_content := []; fm_mtime := 0; fm_ctime := 0 |}
+                              end;
+         se_fkey := fun t => t;
+         se_sha := C14.IO.sha_of (map (fun r => (fm_mtime (fw_meta r), N.of_nat (length (fm_content (fw_meta r))), fw_etag r)) ft);
+         se_isec := C14.IO.isec_of (flat_map (fun r => [(fm_mtime (fw_meta r), fw_msec r); (fm_ctime (fw_meta r), fw_csec r)]) ft);
+         se_fmtdate := fun sec => match lookup_n (map (fun r => (fw_msec r, fw_lastmod r)) ft) sec with
+                                  | Some t => t
+                                  | None => 63%N :: dec sec
+                                  end;
+         se_parsedate := fun t => match lookup_path dt t with Some o => o | None => None end;
+         se_ctype := fun p => match lookup_path ct p with Some (c, _) => c | None => lit "application/octet-stream" end;
+         se_disp := fun p => match lookup_path ct p with Some (_, d) => d | None => None end;
+         se_boundary := boundary |}
+  | _ =>
+      {| se_cwd := lit "/"; se_fs := fun _ => C07.Model.NAbsent;
+         se_meta := fun _ => {| fm_content := []; fm_mtime := 0; fm_ctime := 0 |};
+         se_fkey := fun t => t; se_sha := C14.IO.sha_of []; se_isec := C14.IO.isec_of [];
+         se_fmtdate := fun sec => 63%N :: dec sec; se_parsedate := fun _ => None;
+         se_ctype := fun _ => lit "application/octet-stream"; se_disp := fun _ => None; se_boundary := [] |}
+  end.
+
 Section RdApp.
   Variable ucls : N -> N.
+  Variable env : senv.
 
   Fixpoint rd_app (s : sx) : option (app nat) :=
     match s with
     | Lst [Str kind; Lst items] =>
         if bytes_eqb kind (lit "leaf") then
           match rd_view items with Some v => Some (Leaf v) | None => None end
+        else if bytes_eqb kind (lit "static") then
+          match items with
+          | [Num k; Str dir; Str cache; Num age] =>
+              Some (StaticLeaf (if Z.eqb k 0 then C07.Model.KFiles else C07.Model.KPages)
+                               {| sc_dir := dir; sc_cacheability := cache; sc_max_age := age |} env)
+          | _ => None
+          end
         else
           let subs :=
             (fix go (l : list sx) : option (list (sx * app nat)) :=
@@ -122,13 +225,19 @@ Section RdApp.
     end.
 End RdApp.
 
-Definition show_obs (o : obs) : sx :=
+(* [ordered]: the header list as it is sent; otherwise sorted *)
+Definition show_obs (ordered : bool) (o : obs) : sx :=
   match o with
-  | OResp st hs body => Lst [of_nat st; show_headers hs; Str body]
+  | OResp st hs body =>
+      Lst [of_nat st;
+           if ordered then Lst (map (fun p => Lst [Str (fst p); Str (snd p)]) hs) else show_headers hs;
+           Str body]
   | ONoStart => Lst [tag (lit "nostart")]
   | ORaised C09.Model.KeyError => Lst [tag (lit "exc"); tag (lit "KeyError")]
   | ORaised C09.Model.RuntimeError => Lst [tag (lit "exc"); tag (lit "RuntimeError")]
   | OStuck => Lst [tag (lit "stuck")]
+  | OHttp st => Lst [tag (lit "http"); of_nat st]
+  | OCrash => Lst [tag (lit "crash")]
   end.
 
 Definition row_of_sx (s : sx) : bytes * list bool :=
@@ -137,19 +246,27 @@ Definition row_of_sx (s : sx) : bytes * list bool :=
   | _ => ([], [])
   end.
 
+Definition run_tree (ordered : bool) (lim : Z) (cl : list sx) (tree : sx) (rq : areq) (rows : list sx) (env : senv) : list sx :=
+  let ucls := C08.IO.lookup_cls (map C08.IO.cls_of_sx cl) in
+  match rd_app ucls env tree with
+  | None => [Lst [tag (lit "cfg")]]
+  | Some a =>
+      let fm := C09.Model.table_fullmatch (map row_of_sx rows) in
+      [show_obs ordered (serve_wsgi fm (Z.to_N lim) rq a); show_obs ordered (serve_asgi fm (Z.to_N lim) rq a)]
+  end.
+
 Definition run_app (c : list sx) : list sx :=
   match c with
   | [Num lim; Lst cl; tree; Str method; Str root; Str path; Lst hs; Lst rows] =>
-      let ucls := C08.IO.lookup_cls (map C08.IO.cls_of_sx cl) in
-      match rd_app ucls tree with
-      | None => [Lst [tag (lit "cfg")]]
-      | Some a =>
-          let rq := {| aq_request := {| rq_method := method; rq_query := []; rq_headers := map rd_header hs;
-                                        rq_client := None; rq_body := [] |};
-                       aq_root := root; aq_path := path |} in
-          let fm := C09.Model.table_fullmatch (map row_of_sx rows) in
-          [show_obs (serve_wsgi fm (Z.to_N lim) rq a); show_obs (serve_asgi fm (Z.to_N lim) rq a)]
-      end
+      let rq := {| aq_request := {| rq_method := method; rq_query := []; rq_headers := map rd_header hs;
+                                    rq_client := None; rq_body := [] |};
+                   aq_root := root; aq_path := path; aq_scheme := lit "http"; aq_server := (lit "testserver", 80%N) |} in
+      run_tree false lim cl tree rq rows (rd_world (Lst []))
+  | [Num lim; Lst cl; tree; Str method; Str root; Str path; Lst hs; Lst rows; Str query; Str scheme; Lst [Str sname; Num sport]; world] =>
+      let rq := {| aq_request := {| rq_method := method; rq_query := query; rq_headers := map rd_header hs;
+                                    rq_client := None; rq_body := [] |};
+                   aq_root := root; aq_path := path; aq_scheme := scheme; aq_server := (sname, Z.to_N sport) |} in
+      run_tree true lim cl tree rq rows (rd_world world)
   | _ => [tag (lit "badcase")]
   end.
 
